@@ -17,9 +17,9 @@ def campaign(c):
     c.rule = RULE
     kinds = ['tcp', 'udp', 'unicast', 'broadcast', 'dnshost', 'icmp', 'frag', 'tunnel', 'datagram', 'tunbc']
     n = 120 if c.quick else 2500
-    for i in range(n + 4):
+    for i in range(n + 6):
         seed = c.rng.fork('c18-%d' % i)
-        k = [kinds[i % len(kinds)]] if i < n else [['non-emitting', 'fan-out'][i % 2]]
+        k = [kinds[i % len(kinds)]] if i < n else [['non-emitting', 'fan-out', 'port-classes'][i % 3]]
         r1 = core.Rng(seed.s); r2 = core.Rng(seed.s)
         _, sf = netscen.build(r1, False, k, c.quick)
         _, sr = netscen.build(r2, True, k, c.quick)
